@@ -166,3 +166,12 @@ func (s *Server) VerifHandlerIDs() []uint16 {
 	sort.Slice(out, func(i, j int) bool { return out[i] < out[j] })
 	return out
 }
+
+// VerifInitHandlers registers the service handlers as Start does, without listening.
+func (s *Server) VerifInitHandlers() { s.initHandlers() }
+
+// VerifPublishingIntervalLimits returns the bounds of the revised publishing interval in milliseconds.
+func VerifPublishingIntervalLimits() (float64, float64) { return publishingIntervalMin, publishingIntervalMax }
+
+// VerifRevisePublishingInterval exposes revisePublishingInterval.
+func VerifRevisePublishingInterval(ms float64) float64 { return revisePublishingInterval(ms) }
